@@ -365,7 +365,8 @@ def seq_correspondence(run, harness, mode, label, args, corpus_files=(), overlay
             small, im, mo, sp = small[:idx + 1], im[:idx + 1], mo[:idx + 1], sp[:idx + 1]
             last = small[-1].split()[0]
             found = kind == "spec"
-            sig = "%s:%s:%s" % (label, kind, last)
+            # a corpus sequence is identified by its file, a generated one by the run it came from
+            sig = "%s:%s:%s" % (jname if jname.startswith("corpus:") else label, kind, last)
             payload = {"kind": "sequential-differential", "what": {
                 "spec": "the real code contradicts the property's reference semantics (Spec) on this call sequence",
                 "model": "hand-written model and real code disagree (correspondence broken) and no call sequence was found on which the real code contradicts the reference semantics"}[kind],
@@ -580,10 +581,12 @@ def sched_exploration(run, harness, label, args, tags, lin=True):
     return ok
 
 
-def trace_correspondence(run, harness, label, args):
+def trace_correspondence(run, harness, label, args, flag="--trace-proto", model="Model.Proto (M4a)"):
     """M4a <-> real code at atomic-step granularity: the protocol-level trace of every explored schedule of the
     real Map/MapOf must be a run of the Lean model `Model.Proto` (commit points, thresholds, counters, lock and
-    resize protocol, call results).  A mismatch is a broken correspondence (not by itself a failing input)."""
+    resize protocol, call results).  A mismatch is a broken correspondence (not by itself a failing input).
+    With flag="--trace-cache": the same for the cache layer and `Model.ConcCache` (M5): map calls, clock and
+    setting reads, Range visits, callbacks, results."""
     d = os.path.join(run.work, label)
     os.makedirs(d, exist_ok=True)
     rc, o, e = sh([harness, "sched", "out=" + d, "trace=1"] + args, timeout=3000)
@@ -591,14 +594,16 @@ def trace_correspondence(run, harness, label, args):
         run.oblige("trace correspondence %s: harness ran" % label, False, e[-2000:])
         return False
     with open(os.path.join(d, "trace.txt"), "rb") as fin:
-        p = subprocess.run([DRIVER, "--trace-proto"], stdin=fin, stdout=subprocess.PIPE, stderr=subprocess.PIPE, timeout=3000)
+        p = subprocess.run([DRIVER, flag], stdin=fin, stdout=subprocess.PIPE, stderr=subprocess.PIPE, timeout=3000)
     lines = p.stdout.decode().splitlines()
+    skipped = [l for l in lines if " SKIP " in l]
+    lines = [l for l in lines if " SKIP " not in l]
     bad = [l for l in lines if " MISMATCH " in l]
     n_events = sum(int(l.split()[2]) for l in lines if " OK " in l and len(l.split()) > 2)
     run.cov["traces_validated_against_impl"] += len(lines)
     run.cov["evaluations"] += len(lines)
     run.cov["transitions_scheduled"] = run.cov.get("transitions_scheduled", 0) + n_events
-    run.cov["runs"].append({"label": label, "traces": len(lines), "trace_events_accepted_by_model": n_events, "mismatches": len(bad)})
+    run.cov["runs"].append({"label": label, "traces": len(lines), "trace_events_accepted_by_model": n_events, "mismatches": len(bad), "skipped_not_modelled": len(skipped)})
     detail = ""
     if bad:
         # keep the first mismatching trace as the replay of the broken correspondence
@@ -609,9 +614,9 @@ def trace_correspondence(run, harness, label, args):
                 keep = l.split()[1] == tid
             if keep:
                 tr.append(l)
-        path = write_replay(run, label + "_trace", {"kind": "trace-correspondence", "what": "the Lean protocol model (M4a) cannot follow this trace of the real code", "mismatch": bad[0], "trace": tr, "harness_args": args})
+        path = write_replay(run, label + "_trace", {"kind": "trace-correspondence", "what": "the Lean model %s cannot follow this trace of the real code" % model, "mismatch": bad[0], "trace": tr, "harness_args": args})
         detail = "%d of %d traces rejected by the model; first: %s (trace in %s)" % (len(bad), len(lines), bad[0], path)
-    run.oblige("trace correspondence %s: every protocol-level trace of the real code is a run of Model.Proto (%d traces)" % (label, len(lines)), not bad, detail)
+    run.oblige("trace correspondence %s: every step-level trace of the real code is a run of %s (%d traces)" % (label, model, len(lines)), not bad, detail)
     return not bad
 
 
@@ -634,6 +639,7 @@ def finish(run, level_note_gaps=()):
         return ESCALATE
     known = load_known()
     remaining = []
+    printed = set()
     for sig, path, found, text in run.violations:
         hit = None
         for k in known.get("known", []):
@@ -641,7 +647,9 @@ def finish(run, level_note_gaps=()):
                 hit = k
                 break
         if hit:
-            print("KNOWN-FINDING: property=%s %s" % (run.pid, hit.get("what", sig)))
+            if hit.get("id", hit["signature"]) not in printed:
+                printed.add(hit.get("id", hit["signature"]))
+                print("KNOWN-FINDING: property=%s %s" % (run.pid, hit.get("what", sig)))
             run.known.append(sig)
         else:
             remaining.append((sig, path, found, text))
